@@ -12,7 +12,7 @@ PID = "C19"
 ANCHORS = ["pyoma2.functions.gen:check_on_geo1", "pyoma2.functions.gen:check_on_geo2", "pyoma2.functions.gen:flatten_sns_names", "pyoma2.functions.gen:dfphi_map_func",
            "pyoma2.support.geometry.mixin:GeometryMixin.def_geo1", "pyoma2.support.geometry.mixin:GeometryMixin.def_geo2", "pyoma2.support.geometry.mixin:GeometryMixin._def_geo_by_file",
            "pyoma2.support.geometry.mpl_plotter:Geo1MplPlotter.plot_mode", "pyoma2.support.geometry.mpl_plotter:Geo2MplPlotter.plot_mode"]
-REQUIRED_MONITORS = ["alignment@def_geo1_by_file", "alignment@def_geo2_by_file", "alignment@def_geo1(arguments)", "alignment@def_geo2(arguments)", "corruption->ValueError@geo1",
+REQUIRED_MONITORS = ["arguments unchanged + second definition", "alignment@def_geo1_by_file", "alignment@def_geo2_by_file", "alignment@def_geo1(arguments)", "alignment@def_geo2(arguments)", "corruption->ValueError@geo1",
                      "corruption->ValueError@geo2", "mapping@dfphi_map_func", "artists@plot_mode_geo1", "artists@plot_mode_geo2_mpl", "names@flatten_sns_names"]
 CORR1 = ["missing sensors names", "missing sensors coordinates", "missing sensors directions", "unknown sheet", "coordinates 2 columns", "directions 2 columns", "directions fewer rows",
          "directions other index", "BG nodes 2 columns", "BG lines 3 columns", "BG surfaces 2 columns", "name not in coordinates"]
@@ -267,7 +267,17 @@ def run_geo(ctx, rng, which, by_args):
             for key, arg in (("sensors lines", "sens_lines"), ("BG nodes", "bg_nodes"), ("BG lines", "bg_lines"), ("BG surfaces", "bg_surf")):
                 if key in tabs:
                     kw[arg] = tabs[key].to_numpy() if rng.random() < 0.7 else tabs[key]
-            setup.def_geo1(copy.deepcopy(names_arg), tabs["sensors coordinates"].copy(), dir_arg, **kw)
+            coord_arg = tabs["sensors coordinates"].copy()
+            keep = {k: (v.copy() if hasattr(v, "copy") else v) for k, v in kw.items()}
+            setup.def_geo1(copy.deepcopy(names_arg), coord_arg, dir_arg, **kw)
+            first = setup.geo1
+            ctx.ev("arguments unchanged + second definition")
+            unchanged = all((a.equals(keep[k]) if isinstance(a, pd.DataFrame) else np.array_equal(a, keep[k])) for k, a in kw.items()) and coord_arg.equals(tabs["sensors coordinates"])
+            ctx.check(unchanged, "geo1_args:argument_tables_modified", "def_geo1 modified the tables / arrays it was given")
+            setup.def_geo1(copy.deepcopy(names_arg), coord_arg, dir_arg, **kw)  # the same objects again
+            same = all(np.array_equal(getattr(first, f), getattr(setup.geo1, f)) if getattr(first, f) is not None else getattr(setup.geo1, f) is None
+                       for f in ("sens_lines", "bg_nodes", "bg_lines", "bg_surf"))
+            ctx.check(same, "geo1_args:second_definition_differs", "defining geo1 a second time from the same argument objects gives another geometry")
         else:
             kw = {}
             for key, arg in (("constraints", "cstr"), ("sensors sign", "sens_sign")):
@@ -276,7 +286,17 @@ def run_geo(ctx, rng, which, by_args):
             for key, arg in (("sensors lines", "sens_lines"), ("sensors surfaces", "sens_surf"), ("BG nodes", "bg_nodes"), ("BG lines", "bg_lines"), ("BG surfaces", "bg_surf")):
                 if key in tabs:
                     kw[arg] = tabs[key].to_numpy() if rng.random() < 0.7 else tabs[key]
-            setup.def_geo2(copy.deepcopy(names_arg), tabs["points coordinates"].copy(), tabs["mapping"].copy(), **kw)
+            keep = {k: (v.copy() if hasattr(v, "copy") else v) for k, v in kw.items()}
+            pts_arg, map_arg = tabs["points coordinates"].copy(), tabs["mapping"].copy()
+            setup.def_geo2(copy.deepcopy(names_arg), pts_arg, map_arg, **kw)
+            first = setup.geo2
+            ctx.ev("arguments unchanged + second definition")
+            unchanged = all((a.equals(keep[k]) if isinstance(a, pd.DataFrame) else np.array_equal(a, keep[k])) for k, a in kw.items()) and pts_arg.equals(tabs["points coordinates"])
+            ctx.check(unchanged, "geo2_args:argument_tables_modified", "def_geo2 modified the tables / arrays it was given")
+            setup.def_geo2(copy.deepcopy(names_arg), pts_arg, tabs["mapping"].copy(), **kw)
+            same = all(np.array_equal(getattr(first, f), getattr(setup.geo2, f)) if getattr(first, f) is not None else getattr(setup.geo2, f) is None
+                       for f in ("sens_lines", "sens_surf", "bg_nodes", "bg_lines", "bg_surf"))
+            ctx.check(same, "geo2_args:second_definition_differs", "defining geo2 a second time from the same argument objects gives another geometry")
         tag = f"alignment@def_geo{which}(arguments)"
     sig = f"geo{which}{'_args' if by_args else ''}"
     if which == 1:
